@@ -37,6 +37,11 @@ Patterns == { PAnd(<<I("p"), r, I("q")>>) : r \in Repeated }
        \* written once with an anchor and referred to by an alias)
        \cup { PAnd(<<r, I("p"), r, I("q")>>) : r \in Repeated }
        \cup Unrolled
+       \* optional items and groups whose mnemonics are real words (text that occurs nowhere else in the stream --
+       \* single letters also occur inside addresses)
+       \cup { PAnd(<<I("p"), WithTimes(g, b[1], b[2]), I("q")>>)
+               : g \in { I("leave"), PAnd(<<I("inc"), I("xchg")>>), PPerm(<<I("inc"), I("xchg")>>), POr(<<I("inc"), I("xchg")>>) },
+                 b \in { <<0, 0>>, <<0, 1>>, <<0, 2>>, <<1, 2>> } }
 
 Bodies == { <<"a", <<>> >>, <<"a", <<"x">> >>, <<"b", <<>> >>, <<"c", <<>> >> }
 \* runs of a long enough for nested repetition counts (2 x 3)
@@ -50,6 +55,9 @@ Listings == { WithAddrs(<< <<"p", <<>> >> >> \o s \o << <<"q", <<>> >> >>) : s \
 
        \cup { WithAddrs([k \in 1..n1 |-> <<"a", <<>> >>] \o << <<"p", <<>> >> >> \o [k \in 1..n2 |-> <<"a", <<>> >>] \o << <<"q", <<>> >> >>)
               : n1 \in 0..4, n2 \in 0..4 }
+
+       \cup { WithAddrs(<< <<"p", <<>> >> >> \o s \o << <<"q", <<>> >> >>)
+              : s \in SeqsBetween({ <<"inc", <<>> >>, <<"xchg", <<>> >>, <<"leave", <<>> >> }, 0, 3) }
 
 Universe == [patterns |-> SetToSeq(Patterns), listings |-> SetToSeq(Listings)]
 \* the repeated form under mnemonics-full-match: runs mixing `a' with a mnemonic that merely contains it
